@@ -55,7 +55,7 @@ func drawPolicy(t *rapid.T) *appencryption.CryptoPolicy {
 
 func TestWorld(t *testing.T) {
 	kit.Steps(kit.Pick(50, 70))
-	kit.Check(t, 400, 48000, func(t *rapid.T) { runHistory(t) })
+	kit.Check(t, 2500, 96000, func(t *rapid.T) { runHistory(t) })
 }
 
 type rowKey struct {
